@@ -3,3 +3,8 @@
 From IGP Require Import Base.Str Model.Handlers Gen.Handlers.
 Lemma handler_is_locked : handler_locked = true.
 Proof. vm_compute. reflexivity. Qed.
+
+(* ... and a request does nothing else outside it: the two entry handlers only log and delegate, and nothing but the
+   scheduler hook stands in front of the Lock() call (the model's threads are  Lock; program; Unlock  and nothing more) *)
+Lemma nothing_outside_the_lock : handler_unlocked_statements = nil.
+Proof. reflexivity. Qed.
